@@ -489,6 +489,11 @@ def engine_verdict(w, s):
     for name, rep, tb in s.thread_errors:
         if name == "main":
             return {"class": "harness_main_error", "detail": rep + " " + tb[-800:], "sig": {"engine": "main_error"}}
+    for fl in w.flags:
+        if fl and fl[0] == "exit_raised":
+            # leaving the with-block never reports task errors (the calls did): an exception out of __exit__ is joblib's own
+            return {"class": "with_block_exit_raised", "detail": "Parallel.__exit__ raised %s" % (fl[1:],),
+                    "sig": {"what": "with_block_exit_raised", "exc": str(fl[1]).split("(")[0]}}
     return None
 
 
